@@ -16,7 +16,7 @@ int* gp_rs; int* gp_cs; int* gp_bid; const void** gp_mat;
 int* gp_status; _Bool* gp_setup; _Bool* gp_fact; int* gp_loadcalls;
 int g_js, g_gone, g_b, v_b, v_blast, v_i, v_last, g_exp_r, g_exp_c, g_n, g_dim;
 int g_x, g_p, g_newn, v_x, g_xdual, g_bstatus, g_setup, g_fact, g_NP, g_old, g_key, g_rep;
-int g_PL, g_PU, g_PX, g_PF, g_okL, g_okU, g_okX, g_okF, g_giveup;
+int g_PL, g_PU, g_PX, g_PF, g_okL, g_okU, g_okX, g_okF, g_giveup, g_allok;
 int o_status, o_setup, o_fact, o_rsize, o_csize, o_bsize, o_msize, o_loadcalls;
 static void havoc_ghosts(void)
 {
@@ -25,7 +25,7 @@ static void havoc_ghosts(void)
    v_i = nondet_int(); v_last = nondet_int(); g_exp_r = nondet_int(); g_exp_c = nondet_int();
    g_n = nondet_int(); g_dim = nondet_int();
    g_x = nondet_int(); g_p = nondet_int(); g_newn = nondet_int(); v_x = nondet_int(); g_xdual = nondet_int(); g_bstatus = nondet_int();
-   g_giveup = nondet_int(); g_setup = nondet_int(); g_fact = nondet_int(); g_old = nondet_int(); g_key = nondet_int(); g_rep = nondet_int();
+   g_giveup = nondet_int(); g_allok = nondet_int(); g_setup = nondet_int(); g_fact = nondet_int(); g_old = nondet_int(); g_key = nondet_int(); g_rep = nondet_int();
    g_okL = nondet_int(); g_okU = nondet_int(); g_okX = nondet_int(); g_okF = nondet_int(); v_exp_r = nondet_int(); v_exp_c = nondet_int();
    /* enumerators cannot be named in loop invariants: ghost copies */
    g_NP = NO_PROBLEM; g_PL = P_ON_LOWER; g_PU = P_ON_UPPER; g_PX = P_FIXED; g_PF = P_FREE;
@@ -38,6 +38,8 @@ static void havoc_ghosts(void)
 #endif
 #define B1(a, n, k) (((k) < (n) && IS_DUAL((a)[k])) ? 1 : 0)
 #define CNT(a, n) (B1(a, n, 0) + B1(a, n, 1) + B1(a, n, 2) + B1(a, n, 3) + B1(a, n, 4) + B1(a, n, 5) + B1(a, n, 6) + B1(a, n, 7))
+#define V1(a, n, k) (!((k) < (n)) || VALID_DESC((a)[k]))
+#define VALID_ALL(a, n) (V1(a, n, 0) && V1(a, n, 1) && V1(a, n, 2) && V1(a, n, 3) && V1(a, n, 4) && V1(a, n, 5) && V1(a, n, 6) && V1(a, n, 7))
 #define BOOL01(x) ((x) == 0 || (x) == 1)
 #define STATUS_OK(s) (NO_PROBLEM < (s) && (s) <= INFEASIBLE)
 #define DIM(rep, nr, nc) ((rep) > 0 ? (nr) : (nc))
@@ -180,7 +182,8 @@ __CPROVER_requires(nr > 0 ==> v_r == rowstat[g_r])
 #endif
 #ifdef COUNTV
 /* I(old) and the full characterisation of perm (the accessor invariant of the inductive variant is a consequence) */
-__CPROVER_requires(PERM_OK(perm, XN, XNEW) && CNT(rowstat, rsize) + CNT(colstat, csize) == rsize)
+__CPROVER_requires(PERM_OK(perm, XN, XNEW) && VALID_ALL(XS, XN) && CNT(rowstat, rsize) + CNT(colstat, csize) == rsize)
+__CPROVER_requires(g_allok == (ALL_REMOVED(perm, XS, XN, !GIVE_UP_IF_REMOVED_IS_DUAL) ? 1 : 0))     /* evaluated in the pre-state */
 #endif
 __CPROVER_assigns(OUT_ASSIGNS)
 __CPROVER_assigns(__CPROVER_object_whole(rowstat), __CPROVER_object_whole(colstat))
@@ -202,7 +205,7 @@ __CPROVER_ensures(o_loadcalls == 0)
 #ifdef COUNTV
 /* C04: a kept basis has exactly one basic variable per remaining row; and it is kept exactly when that is possible */
 __CPROVER_ensures(o_status > NO_PROBLEM ==> CNT(rowstat, nr) + CNT(colstat, nc) == nr)
-__CPROVER_ensures(o_status == (ALL_REMOVED(perm, XS, XN, !GIVE_UP_IF_REMOVED_IS_DUAL) ? bstatus : NO_PROBLEM))
+__CPROVER_ensures(o_status == (g_allok ? bstatus : NO_PROBLEM))
 #endif
 ;
 void h_removedMany(void)
